@@ -172,7 +172,12 @@ pub fn run<const N: usize>(c: &Case) -> CaseResult {
             }
             Op::Clone { dst: d, src } => {
                 let (d, s) = (*d as usize % 3, *src as usize % 3);
-                regs[d] = regs[s].clone();
+                if step % 2 == 0 || d == s {
+                    regs[d] = regs[s].clone();
+                } else {
+                    let src = regs[s].clone();
+                    regs[d].clone_from(&src);
+                }
                 ms[d] = ms[s].clone();
                 dst = d;
             }
